@@ -74,12 +74,13 @@ condition `φ` in the cover fragment, such that the quantified variable is not u
 
 * `exists_ q φ`: every result cell of `φ` — true or false — binds `q` (negation of the trigger of F-C01-7), and every
   other variable of `φ` is bound before the quantifier is reached (negation of the trigger of F-C01-5);
-* `forAll q φ`: every TRUE result cell of `φ` binds every node of `φ` (negation of the trigger of F-C01-11). -/
+* `forAll q φ`: every TRUE result cell of `φ` binds every VARIABLE of `φ` (negation of the trigger of F-C01-11; a literal
+  node that a candidate leaves unbound is harmless: the re-check reads the literal afresh). -/
 def Expr.Ql : Expr → List VarId → List Key → Bool
   | .and l e', A, B => l.FcQ && Expr.Ql e' (A ++ l.vars) (B ++ Expr.bK true l)
   | .exists_ q φ, A, B => φ.FcQ && !A.contains q && (Expr.bK true φ).contains (.var q) &&
       (Expr.bK false φ).contains (.var q) && φ.vars.all fun v => v == q || B.contains (.var v)
-  | .forAll q φ, A, _ => φ.FcQ && !A.contains q && φ.nodes.all fun k => (Expr.bK true φ).contains k
+  | .forAll q φ, A, _ => φ.FcQ && !A.contains q && φ.vars.all fun v => (Expr.bK true φ).contains (.var v)
   | _, _, _ => false
 
 def Expr.noForAll : Expr → Bool
@@ -107,7 +108,7 @@ def Expr.Qt : Expr → List VarId → List Key → Bool
       Expr.Qt r (A ++ l.vars) (B ++ l.tb)
   | .exists_ q φ, A, B => φ.FcQ && !A.contains q && (Expr.bK true φ).contains (.var q) &&
       (Expr.bK false φ).contains (.var q) && φ.vars.all fun v => v == q || B.contains (.var v)
-  | .forAll q φ, A, _ => φ.FcQ && !A.contains q && φ.nodes.all fun k => (Expr.bK true φ).contains k
+  | .forAll q φ, A, _ => φ.FcQ && !A.contains q && φ.vars.all fun v => (Expr.bK true φ).contains (.var v)
   | e, _, _ => e.FcQ
 
 /-- no selected expression mentions a quantified variable -/
